@@ -1,6 +1,6 @@
 (* C05 — responses are well-formed, self-consistent HTTP and delivered in full *)
 From Coq Require Import Arith.
-From Rws Require Import Str Utf8 Num Fs UrlParse RangeSpec Request GenMime Mime StaticRes GenConsts Forms Server StrLemmas
+From Rws Require Import Str Utf8 Num Unicase GenUnicase Fs UrlParse RangeSpec Request GenMime Mime StaticRes GenConsts Forms Server StrLemmas
                         C10Proof C14Proof C01Proof C01Process C09Proof.
 Open Scope N_scope.
 
@@ -48,6 +48,25 @@ Proof.
 Qed.
 Lemma lower_cleanb s : cleanb (lower s) = cleanb s.
 Proof. unfold cleanb, lower. induction s as [|c s IH]; [reflexivity|]. cbn [map forallb]. rewrite IH, lower_char_clean. reflexivity. Qed.
+(* the Unicode-aware mapping: the table entries hold no line break on either side (checked on the regenerated table), so a looked-up
+   character neither removes nor adds one; characters that are not in the table are copied *)
+Lemma lower_tab_clean : forallb (fun e => cleanb (fst e) && cleanb (snd e)) lower_tab = true.
+Proof. vm_compute. reflexivity. Qed.
+Lemma tab_find_clean k : cleanb (tab_find lower_tab k) = cleanb k.
+Proof.
+  unfold tab_find. destruct (find (fun e => beqs (fst e) k) lower_tab) as [e|] eqn:E; [|reflexivity].
+  apply find_some in E as [Hin Hk]. apply beqs_eq in Hk. subst k.
+  pose proof (proj1 (forallb_forall _ _) lower_tab_clean e Hin) as H. apply andb_prop in H as [H1 H2]. rewrite H1, H2. reflexivity.
+Qed.
+Lemma map_case_cleanb : forall f s, cleanb (map_case f lower_tab to_ascii_lower s) = cleanb s.
+Proof.
+  induction f as [|f IH]; intro s; [reflexivity|]. destruct s as [|c r]; [reflexivity|]. cbn [map_case].
+  destruct (N.ltb c 128).
+  - unfold cleanb in *. cbn [forallb]. rewrite IH, lower_char_clean. reflexivity.
+  - rewrite cleanb_app, tab_find_clean, IH, <- cleanb_app, firstn_skipn. reflexivity.
+Qed.
+Lemma ulower_cleanb s : cleanb (ulower s) = cleanb s.
+Proof. unfold ulower. destruct (is_ascii s); [apply lower_cleanb|apply map_case_cleanb]. Qed.
 
 (* ---------- numbers print as digits ---------- *)
 Lemma show_pos_f_clean : forall fuel n acc, cleanb acc = true -> cleanb (show_pos_f fuel n acc) = true.
@@ -75,14 +94,14 @@ Proof.
     + destruct (get_header r Hd_ACCESS_CONTROL_REQUEST_METHOD) as [mh|] eqn:Em;
       destruct (get_header r Hd_ACCESS_CONTROL_REQUEST_HEADERS) as [hh|] eqn:Eh;
       cbn [app forallb]; unfold hclean, Server.H; cbn [hname hvalue];
-      rewrite ?Co, ?lower_cleanb, ?(get_header_clean r _ _ Hr Em), ?(get_header_clean r _ _ Hr Eh); reflexivity.
+      rewrite ?Co, ?ulower_cleanb, ?(get_header_clean r _ _ Hr Em), ?(get_header_clean r _ _ Hr Eh); reflexivity.
     + cbn [app forallb]. unfold hclean, Server.H. cbn [hname hvalue]. rewrite Co. reflexivity.
   - cbn [cors_clean] in Hc. apply andb_prop in Hc as [Hc Ca]. apply andb_prop in Hc as [Hc Ce]. apply andb_prop in Hc as [Cm Ch].
     destruct (get_header r Hd_ORIGIN) as [og|] eqn:Eo; [|reflexivity].
     pose proof (get_header_clean r _ _ Hr Eo) as Co.
     match goal with |- context [if ?c then [] else _] => destruct c end; [reflexivity|].
     destruct (beqs cr TRUE); destruct (beqs (method r) OPTIONS); cbn [app forallb]; unfold hclean, Server.H; cbn [hname hvalue];
-    rewrite ?Co, ?lower_cleanb, ?Cm, ?Ch, ?Ce, ?Ca; reflexivity.
+    rewrite ?Co, ?ulower_cleanb, ?Cm, ?Ch, ?Ce, ?Ca; reflexivity.
 Qed.
 Lemma default_headers_clean cfg r : cfg_clean cfg = true -> forallb hclean (headers r) = true -> forallb hclean (default_headers cfg r) = true.
 Proof.
